@@ -532,46 +532,42 @@ def arg_check_rule(ctx):
         res.fail(Finding("ARG-CHECK", lp.module, lp.qualname, lp.node, "the row-count guard does not precede the evaluation of _log_prob", construct="row-count guard of log_prob"))
     else:
         res.ok("log_prob: ValueError under `context is not None and inputs.shape[0] != context.shape[0]` before _log_prob")
-    # sample
+    # sample: partial evaluation with every kind of invalid count -- the call must end in a
+    # TypeError before the sampler is invoked (and accept the valid counts, BATCH-COUNT)
+    from ..peval import PEval, Obj, Sym, SymFn, Undecided as PUndecided, Raises as PRaises
+
     sm = dist.methods.get("sample")
+    if sm is None:
+        raise AnalysisIncomplete("Distribution.sample missing")
+    methods = {nm: fi.node for nm, fi in dist.methods.items()}
+    INVALID = [0, -1, -7, 2.5, 3.0, "4", None, [3], (2,)]
     for pname in ("num_samples", "batch_size"):
-        guard_line = None
-        guard_pc = None
-        for st, pc, ng in walk_pc(sm.node.body):
-            if isinstance(st, ast.Raise) and _exc_name(st) == "TypeError":
-                atoms = pc_atoms(pc)
-                if any(a.startswith("not(") and "is_positive_int(%s)" % pname in a for a in atoms):
-                    # predicate must resolve to typechecks.is_positive_int
-                    okres = False
-                    for t, pol in pc:
-                        for c in ast.walk(t):
-                            if isinstance(c, ast.Call) and norm_text(c.func).endswith("is_positive_int"):
-                                r = p.resolve_expr(sm.module, c.func)
-                                okres = getattr(r, "name", None) == "is_positive_int" and getattr(getattr(r, "module", None), "name", "") == "nflows.utils.typechecks"
-                    if okres:
-                        guard_line = st.lineno
-                        guard_pc = pc_atoms(pc) - {a for a in atoms if "is_positive_int(%s)" % pname in a}
-        if guard_line is None:
-            res.fail(Finding("ARG-CHECK", sm.module, sm.qualname, sm.node, "no `raise TypeError` unless is_positive_int(%s)" % pname, construct="%s guard of sample" % pname))
-            continue
-        # every use of the parameter comes after the guard (or on a path where it is None)
-        bad = None
-        for st, pc, ng in walk_pc(sm.node.body):
-            if isinstance(st, (ast.If, ast.For, ast.While, ast.With)):
-                uses = [n for n in ast.walk(st.test if hasattr(st, "test") else (st.iter if hasattr(st, "iter") else st.items[0].context_expr)) if isinstance(n, ast.Name) and n.id == pname]
-            else:
-                uses = [n for n in ast.walk(st) if isinstance(n, ast.Name) and n.id == pname]
-            if not uses or st.lineno >= guard_line:
-                continue
-            txt = norm_text(st.test) if isinstance(st, ast.If) else norm_text(st)
-            if "is_positive_int(%s)" % pname in txt or "%s is None" % pname in txt or "%s is not None" % pname in txt:
-                continue
-            bad = st
-            break
-        if bad is not None:
-            res.fail(Finding("ARG-CHECK", sm.module, sm.qualname, bad, "`%s` is used before it is validated" % pname))
-        else:
-            res.ok("sample: TypeError unless is_positive_int(%s), before any use" % pname)
+        n_bad = 0
+        for cx in (None, Sym(("ctx",))):
+            for bad in INVALID:
+                if pname == "batch_size" and bad is None:
+                    continue  # None means: no batching
+                n, b = (bad, None) if pname == "num_samples" else (5, bad)
+                tag = "sample(%r, context=%s, batch_size=%r)" % (n, "None" if cx is None else "<rows>", b)
+                pe = PEval(Obj({"_sample": SymFn("_sample", 1)}, methods))
+                try:
+                    pe.call_method(sm.node, [n], {"context": cx, "batch_size": b})
+                    verdict = "returns a result"
+                except PUndecided as ex:
+                    # evaluation got stuck on the invalid value before any guard rejected it
+                    verdict = "uses the value unchecked (%s)" % str(ex)[:60]
+                except PRaises as ex:
+                    verdict = None if ex.exc == "TypeError" else "raises %s instead of TypeError (%s)" % (ex.exc or "an error", ex.what[:60])
+                except RecursionError:
+                    verdict = "does not terminate"
+                if verdict is None and pe.symfn_calls:
+                    verdict = "calls the sampler (%d call(s)) before rejecting the argument" % len(pe.symfn_calls)
+                if verdict is not None:
+                    n_bad += 1
+                    if n_bad == 1:
+                        res.fail(Finding("ARG-CHECK", sm.module, sm.qualname, sm.node, "%s %s: `%s` must be rejected with a TypeError unless it is a positive int, before anything is drawn" % (tag, verdict, pname), construct="%s guard of sample" % pname))
+        if not n_bad:
+            res.ok("sample: %s in %s is rejected with TypeError before _sample is called, with and without a context" % (pname, INVALID))
     return res
 
 
